@@ -172,6 +172,7 @@ Definition check_parse (c : pcase) : N :=
           && optp_eqb (prefix_new_relaxed (pc_v4 c) (pc_addr c) (pc_len c)) (pc_relaxed c) then 0 else 1.
 
 (* short constructors for the generated case files *)
+Definition S4 (a : N) : N := N.shiftl a 96.    (* an IPv4 address as left-aligned bits *)
 Definition P (v4 : bool) (bits len : N) : prefix := {| p_v4 := v4; p_bits := bits; p_len := len |}.
 Definition V (v4 : bool) (bits len : N) (ml : option N) (asn : N) (tag : N) : item :=
   ({| v_prefix := P v4 bits len; v_maxlen := ml; v_asn := asn |}, tag).
